@@ -81,7 +81,11 @@ pub struct Bitcask {
     /// that want to check if the storage has been shutted down subscribe to this channel and wait
     /// for the signal that is sent when this struct is dropped. We do not send messages directly
     /// through the channel but rely on it's `Drop` implementation to send a closing signal.
-    notify_shutdown: broadcast::Sender<()>,
+    notify_shutdown: Option<broadcast::Sender<()>>,
+
+    /// The thread that runs the background tasks. It is joined when this struct is dropped so
+    /// that no merge is still changing the directory once the storage counts as closed.
+    background_thread: Option<std::thread::JoinHandle<Result<(), Error>>>,
 }
 
 /// A handle that can be shared across threads that want to access the storage.
@@ -204,18 +208,20 @@ impl Bitcask {
         // We'll tie the lifetime of this channel to the lifetime of our `Bitcask` struct so
         // the channel is closed when the struct is dropped
         let (notify_shutdown, _) = broadcast::channel(1);
-        let bitcask = Self {
+        let mut bitcask = Self {
             handle,
-            notify_shutdown,
+            notify_shutdown: Some(notify_shutdown.clone()),
+            background_thread: None,
         };
 
         // We spawn a dedicated thread for the background task. The thread will host a
         // Tokio runtime to schedule tasks for execution.
         let handle = bitcask.get_handle();
-        let notify_shutdown = bitcask.notify_shutdown.clone();
-        std::thread::Builder::new()
-            .name("bitcask-background-tasks".into())
-            .spawn(move || background_tasks(handle, notify_shutdown))?;
+        bitcask.background_thread = Some(
+            std::thread::Builder::new()
+                .name("bitcask-background-tasks".into())
+                .spawn(move || background_tasks(handle, notify_shutdown))?,
+        );
 
         Ok(bitcask)
     }
@@ -229,6 +235,13 @@ impl Bitcask {
 impl Drop for Bitcask {
     fn drop(&mut self) {
         self.handle.close();
+        // Close the channel to wake the background tasks, then wait until they are gone. A merge
+        // that is running is allowed to finish, but it must have finished before the directory
+        // can be given to another instance.
+        drop(self.notify_shutdown.take());
+        if let Some(thread) = self.background_thread.take() {
+            let _ = thread.join();
+        }
     }
 }
 
